@@ -56,6 +56,19 @@ RULE = ("paired real runs: 2D shelf/VISF vs 1D of equal cross-section (radial sp
 EXPLANATION = ("Lean theorems for the algebraic identities between the models + differential check of the 2D model + "
                "paired real runs for the limits")
 PARALLEL = True
+
+# --- regeneration tie (harness/gentie.py): the formulas of the hand model SnowModel/Snowing2D.lean are re-derived
+# from /repo's source on every run and proved equal to the generated text (lean/SnowProofs/Props/GenTie/)
+import gentie  # noqa: E402
+THEOREMS = THEOREMS + gentie.theorems("2D")
+extra_lean_targets = list(globals().get("extra_lean_targets", [])) + [gentie.module("2D")]
+TRUSTED = TRUSTED + ["harness/translate.py formula extraction (single assignments of the run loop -> Lean definitions; "
+                     "anything outside its tiny language is a TranslatorError)"]
+
+
+def regenerate():
+    gentie.regenerate("2D")
+
 LEVEL_TEXT = ("Proof for the algebraic identities, evaluation for the limits. Lean 4 theorems (exact reals): the repaired 2D "
               "cooling step without jacket keeps a radially uniform field uniform and each column is the 1D step; exact "
               "Rat counter-example for the aliased in-place update of the code before F10; cooling-stage evaporative "
